@@ -94,3 +94,32 @@ Example overlap_demo_facts :
   of_local overlap_demo (to_local overlap_demo 1001800) = 1001800 /\
   of_local overlap_demo (to_local overlap_demo 990000) = 990000.
 Proof. vm_compute. repeat split; reflexivity. Qed.
+
+(* ------------------------------------------------------------------ EVERY reading (also readings no instant shows: gaps).
+   time.Date's answer r for a wall-clock reading l is always l minus an offset of the table; it is a genuine preimage
+   (to_local r = l) whenever ANY instant shows l; otherwise no instant shows l (a gap) and r shows l shifted by the
+   difference of two offsets of the table. *)
+Theorem of_local_dichotomy z l :
+  wf_ztable z = true ->
+  let r := of_local z l in
+  (exists u, r = l - offset_at z u /\ to_local z r = l + (offset_at z r - offset_at z u)) /\
+  (to_local z r = l \/ forall t, ALPHA + ZD <= t -> t <= OMEGA - ZD -> to_local z t <> l).
+Proof.
+  intros Hwf r. split.
+  - assert (X : exists u, r = l - offset_at z u).
+    { unfold r, of_local. pose proof (offset_at_zo z l) as E. destruct (lookup z l) as [[o s] e]. unfold zo in E. cbn [fst] in E.
+      destruct (Z.eqb_spec o 0) as [Z0|Z0]; [exists l; lia|].
+      destruct ((l - o <? s) || (e <=? l - o)); [exists (l - o); reflexivity | exists l; lia]. }
+    destruct X as [u Hu]. exists u. split; [exact Hu|]. unfold to_local. lia.
+  - destruct (Z.eq_dec (to_local z r) l) as [E|N]; [now left|right].
+    intros t H1 H2 Ht. apply N. unfold r. rewrite <- Ht. now apply to_local_of_local_to_local.
+Qed.
+
+(* non-vacuity for the gap side: a table with one skipped hour (offset 3600 -> 7200 at 10^6); the reading 10^6 + 5400 is shown
+   by no instant of a window around the transition and is resolved to an instant showing the reading shifted by one hour *)
+Definition gap_demo : ztable := {| z_base := 3600; z_trans := [(1000000, 7200)] |}.
+Example gap_demo_facts :
+  wf_ztable gap_demo = true /\
+  of_local gap_demo 1005400 = 1005400 - 3600 /\ to_local gap_demo (of_local gap_demo 1005400) = 1005400 + 3600 /\
+  to_local gap_demo 999999 = 1003599 /\ to_local gap_demo 1000000 = 1007200.
+Proof. vm_compute. repeat split; reflexivity. Qed.
